@@ -181,6 +181,30 @@ pub fn diff_dumps(got: &Dump, want: &Dump) -> Option<String> {
     None
 }
 
+/// An epoch provider whose statistics of a finished epoch are recomputed from the main chain's blocks
+/// (uncles counted block by block, duration from the timestamps) instead of read off the accumulated
+/// BlockExt counters: the independent side of "per-block epoch records agree with that chain".
+struct WalkProvider<'a, S: ChainStore> { st: &'a S, main: &'a [BlockView] }
+impl<'a, S: ChainStore> ckb_traits::EpochProvider for WalkProvider<'a, S> {
+    fn get_epoch_ext(&self, h: &ckb_types::core::HeaderView) -> Option<ckb_types::core::EpochExt> {
+        self.st.get_block_epoch_index(&h.hash()).and_then(|i| self.st.get_epoch_ext(&i))
+    }
+    fn get_block_hash(&self, n: u64) -> Option<Byte32> { self.main.get(n as usize).map(|b| b.hash()) }
+    fn get_block_ext(&self, h: &Byte32) -> Option<ckb_types::core::BlockExt> { self.st.get_block_ext(h) }
+    fn get_block_header(&self, h: &Byte32) -> Option<ckb_types::core::HeaderView> { self.st.get_block_header(h) }
+    fn get_block_epoch(&self, header: &ckb_types::core::HeaderView) -> Option<ckb_traits::BlockEpoch> {
+        let epoch = self.get_epoch_ext(header)?;
+        if header.number() != epoch.start_number() + epoch.length() - 1 {
+            return Some(ckb_traits::BlockEpoch::NonTailBlock { epoch });
+        }
+        let first = if epoch.is_genesis() { 1 } else { epoch.start_number() };
+        let before = if epoch.is_genesis() { 0 } else { epoch.start_number() - 1 };
+        let uncles: u64 = (first..=header.number()).map(|n| self.main[n as usize].uncles().data().len() as u64).sum();
+        let duration = header.timestamp() - self.main[before as usize].timestamp();
+        Some(ckb_traits::BlockEpoch::TailBlock { epoch, epoch_uncles_count: uncles, epoch_duration_in_milliseconds: duration })
+    }
+}
+
 pub fn run(seed: u64, thorough: bool, out_dir: &std::path::Path, scratch: &std::path::Path) -> Out {
     let mut rng = Rng::new(seed ^ 0xC02);
     let mut out = Out { viol: vec![], evaluations: 0, distinct: BTreeSet::new(), stats: BTreeMap::new(), samples: vec![] };
@@ -202,6 +226,7 @@ pub fn run(seed: u64, thorough: bool, out_dir: &std::path::Path, scratch: &std::
             let mut steps: Vec<(Vec<u64>, Vec<u64>, Dump)> = vec![];
             let mut viol: Vec<Value> = vec![];
             let nsteps = rng.range(5, if thorough { 16 } else { 10 });
+            let h_stats_epochs = std::cell::RefCell::new(0u64);
             {
                 let mut obs = |h: &Hist, c: &Change| {
                     let node = h.node();
@@ -232,6 +257,23 @@ pub fn run(seed: u64, thorough: bool, out_dir: &std::path::Path, scratch: &std::
                         }
                         if Some(snap.epoch_ext().clone()) != want {
                             viol.push(json!({"what": format!("after a {}: the snapshot's epoch is not the epoch of the main chain's tip", c.what), "detail": {"history": h.jops}}));
+                        }
+                        // the epoch record of every block that opens an epoch is what the difficulty adjustment gives
+                        // for the finished epoch's true statistics
+                        {
+                            let wp = WalkProvider { st, main: &main };
+                            for b in main.iter().filter(|b| b.number() > 0 && b.epoch().index() == 0) {
+                                let parent = &main[b.number() as usize - 1];
+                                let want = node.shared.consensus().next_epoch_ext(&parent.header(), &wp).map(|e| e.epoch());
+                                let got = st.get_block_epoch_index(&b.hash()).and_then(|i| st.get_epoch_ext(&i));
+                                if want.is_none() || want != got {
+                                    viol.push(json!({"what": "the epoch record of a block that opens an epoch is not what next_epoch_ext gives for the finished epoch's statistics recomputed from the chain (uncles counted block by block, duration from the timestamps)",
+                                        "detail": {"history": h.jops, "block": h.block_id[&b.hash()], "height": b.number(),
+                                                   "stored": got.as_ref().map(|e| (e.length(), e.compact_target())), "recomputed": want.as_ref().map(|e| (e.length(), e.compact_target()))}}));
+                                    break;
+                                }
+                                *h_stats_epochs.borrow_mut() += 1;
+                            }
                         }
                         for b in &main {
                             let e = st.get_block_epoch_index(&b.hash()).and_then(|i| st.get_epoch_ext(&i));
@@ -310,6 +352,7 @@ pub fn run(seed: u64, thorough: bool, out_dir: &std::path::Path, scratch: &std::
                 }
                 fresh.stop();
             }
+            *h.stats.entry("epoch_heads_recomputed".into()).or_default() += *h_stats_epochs.borrow();
             let stats = h.stats.clone();
             let key = format!("{:?}", h.jops);
             h.finish();
